@@ -361,6 +361,8 @@ type op struct {
 	anchor int   // leaf < 0: the op addresses this anchor (deletes: the subtree; else a JSON document with `leaves`)
 	leaves []int // sorted leaf indexes carried by a JSON op
 	enc    int
+	val    *model.Val  // leaf ops: value written instead of the tree's (nil = the tree's value)
+	ll     []model.Val // same for leaf-lists
 }
 
 func (o op) clone() op { o.leaves = append([]int(nil), o.leaves...); return o }
@@ -677,7 +679,7 @@ func (w *world) relPath(el []model.PElem, prefixLen int) *gpb.Path {
 func (w *world) opUpdate(o op, prefixLen int, rc renderCfg) *gpb.Update {
 	if o.leaf >= 0 {
 		l := w.leaves[o.leaf]
-		return &gpb.Update{Path: w.relPath(l.elems, prefixLen), Val: w.leafTV(l, o.enc, rc, nil, nil)}
+		return &gpb.Update{Path: w.relPath(l.elems, prefixLen), Val: w.leafTV(l, o.enc, rc, o.val, o.ll)}
 	}
 	return &gpb.Update{Path: w.relPath(w.anchors[o.anchor].elems, prefixLen), Val: model.JSONIETFTV(w.docJSON(o.anchor, o.leaves, rc))}
 }
